@@ -185,3 +185,29 @@ def s2_concat_indicator(data):
 
 _add("s1_concat_with_indicator", Tmpl((1, "neutral2"), b"'", (2, "lower"), b"x.e'+'xe'", (1, "neutral2")), s2_concat_indicator,
      funcs=["multidecoder.decoders.concat.find_concat", "multidecoder.decoders.filename.find_executable_name"])
+
+
+def s1_reverse_inside_plain_context(data):
+    # an undecoded (unlabelled) context node -- a cmd string without carets -- encloses the encoded blob: the payload is
+    # still substituted when flattening, through the context
+    from multidecoder.decoders.shell import find_cmd_strings
+
+    md = Multidecoder(decoders=[find_cmd_strings, find_reverse, find_executable_name])
+    root = md.scan(data)
+    e0 = data.index(b"reverse(")  # absolute start of the encoded expression (concrete part of the skeleton)
+    payload = list(data[e0 + 9: e0 + 12])[::-1]
+    if len(root.children) != 1 or root.children[0].type != "shell.cmd" or root.children[0].obfuscation != "":
+        return hx.fail("expected one plain shell.cmd context", data=data, tree=root), True
+    ctx = root.children[0]
+    r = chain_ok(data, ctx, [("string", "reverse", payload)], e0 - 1, 14, payload)
+    if r is not True:
+        return r, True
+    got = root.flatten()
+    want = list(data[:e0]) + [34] + payload + [34] + list(data[e0 + 14:])
+    if not same_bytes(got, want):
+        return hx.fail("flatten does not substitute the payload inside an undecoded context", data=data, got=got), True
+    return True, True
+
+
+_add("s1_reverse_inside_plain_context", Tmpl(b" cmd /c echo reverse('", (3, "digit"), b"') ", (1, "digit")), s1_reverse_inside_plain_context,
+     funcs=["multidecoder.decoders.shell.find_cmd_strings", "multidecoder.decoders.reverse.find_reverse"])
